@@ -87,6 +87,20 @@ CHECKS = {
                      "known findings for NV-only SDK defects (non-sequential NV context deadlock, hard-coded NV memory ids, carbon-carbon "
                      "gate through an unallocated electron)",
                 ref="3/C09"),
+    "C10": dict(cat="exploration", tech="exhaustive enumeration of pair counts x all Bell-state tuples x API variants x hardware x live-qubit shifts through the real SDK-to-controller pipeline with real Bell pairs in an exact state vector; exact joint distributions for measure-directly",
+                text="For n = 1..3 (thorough 4) pairs, all 4^n Bell-state tuples, the variants recv_keep, recv_keep_with_info, sequential "
+                     "recv_keep with a measuring post routine (Z and X), recv_rsp, recv_rsp_with_info, create_keep(_with_info), generic / "
+                     "NV / NV+transpiler hardware, 0..2 other live qubits, expect_phi_plus on and off and responses in native and "
+                     "qlink-interface 1.0 format, the link model puts a real Bell pair (local half on a fresh physical qubit) into the "
+                     "controller's state vector; after the subroutine the reduced state of every (local_i, remote_i) must be exactly "
+                     "Phi+ (or the delivered state when nothing may be corrected) and unrelated qubits untouched. For measure-directly "
+                     "results the exact joint distribution of (post-processed receiver outcome, creator outcome) is computed for the six "
+                     "named bases x four Bell states and must equal the Phi+ distribution; mismatching/unnamed bases must raise; "
+                     "recv_measure goes through the pipeline for all tuples and raw outcomes.",
+                note="Bell states by name per response format; a receiver cannot name a basis through the API (six bases on EprMeasureResult "
+                     "objects); programs the SDK cannot compile on NV (open C09 finding) are counted, not judged; open known findings: "
+                     "generic recv corrections hit virtual qubit 0 (repair would change a pinned test), NV recv_rsp deadlock",
+                ref="3/C10"),
     "C11": dict(cat="exploration", tech="bounded-exhaustive enumeration of EPRSocket API calls and scripted link-layer responses through the real SDK-to-executor pipeline with a recording network stack",
                 text="For every public EPRSocket create/recv entry point and the parameter lattice (number 1..3; all TimeUnit, EprMeasBasis "
                      "and RandomBasis members; each rotation component 0..31 and the {0,1,31}^3 cubes; sockets {0,1,3}; two remote nodes; "
@@ -160,6 +174,19 @@ CHECKS = {
                      "(thorough 3) over one representative per operand shape go text -> binary -> text -> parse and must be stable.",
                 note="operands in range; 32-bit integers on the boundary lattice",
                 ref="3/C17"),
+    "C18": dict(cat="model_checking", tech="stateless schedule exploration of the implementation: CHESS-style iterative context bounding on real threads (sys.settrace baton scheduler, scheduler-aware lock and sleep, fair scheduling for 3 threads, audited preemption-placement reduction)",
+                text="For 12 scenarios of 2-3 real ThreadSocket / StorageThreadSocket / broadcast-channel endpoints (<= 4 sends or receives each; "
+                     "plain, structured, callback, non-blocking, two socket ids, close while draining, either side first) every thread "
+                     "schedule with <= 2 (quick) / <= 3 (thorough) preemptions at statement granularity in socket_hub.py, "
+                     "thread_socket/socket.py and broadcast_channel.py is executed on the real code. Per direction and socket id the "
+                     "received sequence equals the sent one; recv(block=False) on an empty channel raises the documented error without "
+                     "sleeping and never returns a delivered message; no schedule deadlocks, livelocks or exceeds the step horizon; all "
+                     "constructors return. Replay determinism is asserted on the first executions of every scenario and on every "
+                     "counterexample.",
+                note="preemption bound 2/3; three-thread scenarios deviation-bounded under fair scheduling; statement-level interleaving under "
+                     "the GIL; preemptions are placed only before lines touching shared hub state and that reduction is audited every run "
+                     "against the unreduced search at a lower bound; timeouts not modelled",
+                ref="3/C18"),
     "C19": dict(cat="exploration", tech="exhaustive enumeration over a stated finite lattice of angles x tolerances, exact rational arithmetic oracle",
                 text="Not all doubles: every k*pi/2^m (m<=10, |k|<=2^(m+2)), each +-1 ulp and +-tol, 0 and 2*pi +- 1e-17..1e-3, and a "
                      "uniform grid of 2^12 (thorough 2^16) points on [-4pi,4pi], times the nine tolerances 1e-1..1e-9, are decomposed by "
